@@ -58,7 +58,7 @@ SMAX, SMIN = 987654, 123456
 
 
 def tasks(tier):
-    return ['skeleton', 'range', 'bounded', 'canary']
+    return ['skeleton', 'range', 'determinism', 'bounded', 'canary']
 
 
 def helper_obj(m):
@@ -95,6 +95,8 @@ def run_task(task, ctx):
         return task_range(ctx, repo, m)
     if task == 'bounded':
         return task_bounded(ctx, repo, m)
+    if task == 'determinism':
+        return task_determinism(ctx, repo)
     if task == 'canary':
         k = z3.Int('ck')
         ctx.canary('canary.must_fail', Obligation('c', [k >= 1], k >= 2))
@@ -103,6 +105,81 @@ def run_task(task, ctx):
                                 failing=[], replay=None, info=''))
         return
     raise ValueError(task)
+
+
+def task_determinism(ctx, repo):
+    """The order in which MegaGroup._make_data lays out destinations, sources
+    and equations is the order of the generated loops: no loop of it may
+    iterate over a set (whose order changes from process to process with the
+    string hash seed), and the containers it returns are ordered."""
+    ma = repo.module('pysph.sph.acceleration_eval')
+    fn = ma.methods('MegaGroup')['_make_data']
+    seen = []
+
+    def eq(i, dest, sources):
+        return SymObject(None, dict(dest=dest, sources=sources,
+                                    no_source=sources is None), 'eq%d' % i)
+    eqs = [eq(0, 'f', ['f', 'b']), eq(1, 'b', ['f']), eq(2, 'f', None),
+           eq(3, 'f', ['b', 's'])]
+    grp = SymObject(None, dict(equations=eqs, has_subgroups=False), 'group')
+    me = SymObject('MegaGroup', dict(Group=Native(
+        lambda e, s_, a, k, n: ('Group', list(a[0])))), 'self')
+    me.module = ma.name
+    ex = Executor(repo, ma, qualname='MegaGroup._make_data', merge=False)
+    class DD(dict):
+        # collections.defaultdict(list): insertion ordered like a dict
+        def __missing__(self, k):
+            self[k] = []
+            return self[k]
+    ex.spec_env['OrderedDict'] = Native(lambda e, s_, a, k, n: dict())
+    ex.spec_env['defaultdict'] = Native(lambda e, s_, a, k, n: DD())
+    ex.iterable_hook = lambda node, it, st: seen.append(
+        (node.lineno, type(it).__name__, isinstance(it, (set, frozenset))))
+    outs = ex.exec_function(fn, dict(self=me, group=grp))
+    ctx.function(ma, fn, 'MegaGroup._make_data', ex.dropped)
+    bad = [x for x in seen if x[2]]
+    obs = [Obligation('make_data.no_loop_over_a_set', [], z3.BoolVal(
+        bool(seen) and not bad), ma.path, extra=dict(loops=seen[:12]))]
+    ok = len(outs) == 1
+    if ok:
+        d = outs[0].value
+        ok = isinstance(d, dict) and list(d.keys()) == ['f', 'b'] and \
+            list(d['f'][1].keys()) == ['f', 'b', 's'] and \
+            list(d['b'][1].keys()) == ['f']
+    obs.append(Obligation('make_data.layout_in_user_order', [],
+                          z3.BoolVal(bool(ok)), ma.path))
+
+    def rp(model, ob):
+        script = r"""
+import json, sys, subprocess
+d = json.load(sys.stdin)
+code = '''
+import importlib.util, sys
+spec = importlib.util.spec_from_file_location("ae_ut", sys.argv[1] + "/pysph/sph/acceleration_eval.py")
+m = importlib.util.module_from_spec(spec); m.__package__ = "pysph.sph"; spec.loader.exec_module(m)
+class Q:
+    def __init__(s, dest, sources): s.dest, s.sources, s.no_source = dest, sources, sources is None
+class G(list): pass
+mg = m.MegaGroup.__new__(m.MegaGroup); mg.Group = G
+class Grp: pass
+g = Grp(); g.equations = [Q("f", ["fluid", "boundary", "solid", "inlet"])]; g.has_subgroups = False
+print(",".join(mg._make_data(g)["f"][1].keys()))
+'''
+outs = set()
+for seed in range(1, 9):
+    import os
+    env = dict(os.environ, PYTHONHASHSEED=str(seed))
+    p = subprocess.run([sys.executable, '-c', code, d['root']], capture_output=True, text=True, env=env)
+    outs.add(p.stdout.strip())
+bad = None
+if outs != {'fluid,boundary,solid,inlet'}:
+    bad = dict(source_orders_seen_across_processes=sorted(outs), documented='fluid,boundary,solid,inlet')
+print(json.dumps(dict(bad=bad)))
+"""
+        from pyvc.repo import REPO_ROOT
+        r = native.run_venv(script, dict(root=REPO_ROOT))
+        return dict(reproduced=bool(r['bad']), **(r['bad'] or {}))
+    ctx.prove('make_data.order_is_deterministic', obs, replay=rp)
 
 
 REPLAY_ITER = r'''
@@ -211,10 +288,13 @@ def task_skeleton(ctx, repo, m):
 def task_range(ctx, repo, m):
     cls = 'AccelerationEvalCythonHelper'
     fn = m.methods(cls)['get_dest_array_setup']
-    ok, why = True, []
-    for start_kind, start in (('num0', 0), ('num', 7), ('str', 'n_start')):
+    obs = []
+    # numeric indices are SYMBOLIC integers (any value, 0 and negatives
+    # included): they are printed into the emitted text as opaque markers
+    START, STOP = z3.Int('start_idx'), z3.Int('stop_idx')
+    for start_kind, start in (('num', START), ('str', 'n_start')):
         for stop_kind, stop in (('none', None), ('str', 'n_stop'),
-                                ('num', 42)):
+                                ('num', STOP)):
             for real in (True, False):
                 g0 = SymObject(None, dict(get_array_names=Native(
                     lambda e, s_, a, k, n: (set(['s_m']), set(['d_rho'])))),
@@ -225,28 +305,32 @@ def task_range(ctx, repo, m):
                 grp = SymObject(None, dict(start_idx=start, stop_idx=stop,
                                            real=real), 'group')
                 ex = Executor(repo, m, qualname=cls + '.get_dest_array_setup',
+                              merge=False,
                               externals={'isinstance': lambda e, s_, a, k, n:
                                          isinstance(a[0], str)})
                 outs = ex.exec_function(fn, dict(
                     self=helper_obj(m), dest_name='fluid',
                     eqs_with_no_source=g0, sources={'solid': g1},
                     group=grp))
-                good = len(outs) == 1 and isinstance(outs[0].value, str)
-                if good:
-                    lines = outs[0].value.split('\n')
-                    w0 = 'D_START_IDX = self.fluid.n_start[0]' \
-                        if start_kind == 'str' else 'D_START_IDX = %s' % start
-                    w1 = {'none': 'NP_DEST = self.fluid.size(real=%s)' % real,
-                          'str': 'NP_DEST = self.fluid.n_stop[0]',
-                          'num': 'NP_DEST = 42'}[stop_kind]
-                    want = [w0, w1, 'd_au = dst.au.data',
-                            'd_rho = dst.rho.data', 'd_x = dst.x.data']
-                    good = lines == want
-                if not good:
-                    ok = False
-                    why.append('%s/%s/real=%s: %r' % (
-                        start_kind, stop_kind, real,
-                        outs[0].value if outs else None))
+                tag = '%s.%s.%s' % (start_kind, stop_kind, real)
+                w0 = 'D_START_IDX = self.fluid.n_start[0]' \
+                    if start_kind == 'str' else 'D_START_IDX = <<start_idx>>'
+                w1 = {'none': 'NP_DEST = self.fluid.size(real=%s)' % real,
+                      'str': 'NP_DEST = self.fluid.n_stop[0]',
+                      'num': 'NP_DEST = <<stop_idx>>'}[stop_kind]
+                want = [w0, w1, 'd_au = dst.au.data', 'd_rho = dst.rho.data',
+                        'd_x = dst.x.data']
+                obs.append(Obligation('range.%s.returns' % tag, [],
+                                      z3.BoolVal(len(outs) >= 1), m.path))
+                for k_, o in enumerate(outs):
+                    good = isinstance(o.value, str) and \
+                        o.value.split('\n') == want
+                    obs.append(Obligation(
+                        'range.%s.path%d' % (tag, k_), o.pc,
+                        z3.BoolVal(bool(good)), m.path,
+                        extra=dict(start=start_kind, stop=stop_kind,
+                                   real=real, emitted=str(o.value)[:300],
+                                   backends=['z3'])))
     ctx.function(m, fn, cls + '.get_dest_array_setup')
 
     def rp(model, ob):
@@ -259,20 +343,31 @@ H = mod.AccelerationEvalCythonHelper.__new__(mod.AccelerationEvalCythonHelper)
 class G0:
     def get_array_names(self): return set(), set(['d_rho'])
 bad = None
-for real in (True, False):
-    class Gr: start_idx = 0; stop_idx = None
-    Gr.real = real
-    out = H.get_dest_array_setup('fluid', G0(), {}, Gr)
-    if 'NP_DEST = self.fluid.size(real=%s)' % real not in out.split('\n'):
-        bad = dict(real=real, emitted=out)
+for start in d['starts']:
+  for stop in d['stops']:
+    for real in (True, False):
+        class Gr: pass
+        Gr.start_idx = start; Gr.stop_idx = stop; Gr.real = real
+        out = H.get_dest_array_setup('fluid', G0(), {}, Gr).split('\n')
+        w0 = 'D_START_IDX = self.fluid.%s[0]' % start if isinstance(start, str) else 'D_START_IDX = %s' % start
+        w1 = ('NP_DEST = self.fluid.size(real=%s)' % real) if stop is None else ('NP_DEST = self.fluid.%s[0]' % stop if isinstance(stop, str) else 'NP_DEST = %s' % stop)
+        if out[:2] != [w0, w1] and bad is None:
+            bad = dict(start_idx=start, stop_idx=stop, real=real, emitted=out[:2], documented=[w0, w1])
 print(json.dumps(dict(bad=bad)))
 """
         from pyvc.repo import REPO_ROOT
-        r = native.run_venv(script, dict(root=REPO_ROOT))
+
+        def val(k):
+            try:
+                return int(str(model.get(k, 0)).split('/')[0])
+            except Exception:
+                return 0
+        r = native.run_venv(script, dict(
+            root=REPO_ROOT, starts=sorted(set([0, 3, val('start_idx')])) +
+            ['n_start'], stops=[None, 'n_stop'] + sorted(set(
+                [0, 5, val('stop_idx')]))))
         return dict(reproduced=bool(r['bad']), **(r['bad'] or {}))
-    ctx.prove('range.selection', [Obligation(
-        'range', [], z3.BoolVal(ok), m.path)], replay=rp,
-        info='; '.join(why[:3]))
+    ctx.prove('range.selection', obs, replay=rp, use_nf=False)
 
 
 BOUNDED = r'''
@@ -406,8 +501,142 @@ for vals in itertools.product((False, True), repeat=len(flagnames)):
         if bad: break
     if bad: break
 res['emission'] = dict(cases=n, bad=bad)
+
+# ---- nesting of the mega-group loop of compute(): which emitted block sits
+# ---- under which condition / iteration loop
+start = tsrc.index('% for g_idx, group in enumerate(helper.object.mega_groups):')
+stop = tsrc.index('% endfor', tsrc.index('# Group ${group.name} done.')) + len('% endfor')
+tc = Template(tsrc[:end] + '\n' + tsrc[start:stop] + '\n')
+class HC(Hlp):
+    def get_condition_call(s, g): return 'COND_%s()' % g.name
+    def get_iteration_init(s, g): return 'ITER_INIT_%s = 1\nwhile True:' % g.name
+    def get_iteration_check(s, g): return 'ITER_CHECK_%s = 1' % g.name
+def plain(name, cond, iterate=False):
+    class G_: pass
+    g = G_(); g.name = name; g.condition = (lambda t, dt: True) if cond else None
+    g.iterate = iterate; g.has_subgroups = False; g.pre = None; g.post = None; g.update_nnps = False
+    g.data = OrderedDict([('D0', (EG('nos' + name, {}), OrderedDict(), EG('all' + name, dict(init=True))))])
+    return g
+def nesting(text):
+    """marker -> list of enclosing header lines (by indentation)"""
+    out = {}; stack = []
+    for line in text.split('\n'):
+        if not line.strip() or line.strip().startswith('#'): continue
+        ind = len(line) - len(line.lstrip())
+        while stack and stack[-1][0] >= ind: stack.pop()
+        t = line.strip()
+        for mk in re.findall(r'@initialize:\w+|ITER_CHECK_\w+|ITER_INIT_\w+|@pre|@post|nnps\.update_domain|nnps\.update\(\)', t):
+            out[mk] = [h for _, h in stack if h.startswith('if COND_') or h.startswith('while True')]
+        if t.endswith(':'): stack.append((ind, t))
+    return out
+bad = None; n = 0
+for pc in (False, True):
+  for it in (False, True):
+    for nsub in (0, 2, 3):
+      for conds in itertools.product((False, True), repeat=max(nsub, 0)):
+       for ppu in (itertools.product((False, True), repeat=3) if nsub else [(False, False, False)]):
+        par = plain('P', pc, it)
+        if nsub:
+            par.has_subgroups = True
+            par.data = [plain('S%d' % k, conds[k]) for k in range(nsub)]
+            par.pre = (lambda: None) if ppu[0] else None
+            par.post = (lambda: None) if ppu[1] else None
+            par.update_nnps = ppu[2]
+        class Obj: kernel = None; mega_groups = [par, plain('Q', False)]
+        class H2(HC): object = Obj
+        try:
+            text = tc.render(helper=H2(), level=0)
+        except Exception as e:
+            bad = dict(parent_condition=pc, iterate=it, subgroup_conditions=list(conds), error=str(e)[:200]); break
+        got = nesting(text); n += 1
+        pre_, post_, upd_ = ppu
+        base = (['if COND_P():'] if pc else []) + (['while True:'] if it else [])
+        want = {}
+        if it:
+            want['ITER_INIT_P'] = ['if COND_P():'] if pc else []
+            want['ITER_CHECK_P'] = base
+        if nsub:
+            for k in range(nsub):
+                want['@initialize:allS%d' % k] = base + (['if COND_S%d():' % k] if conds[k] else [])
+            if pre_: want['@pre'] = base
+            if post_: want['@post'] = base
+            if upd_:
+                want['nnps.update_domain'] = base
+                want['nnps.update()'] = base
+        else:
+            want['@initialize:allP'] = base
+        want['@initialize:allQ'] = []
+        if got != want:
+            bad = dict(parent_condition=pc, iterate=it, subgroup_conditions=list(conds), pre_post_update=list(ppu), emitted_nesting=got, documented_nesting=want); break
+       if bad: break
+      if bad: break
+    if bad: break
+  if bad: break
+res['nesting'] = dict(cases=n, bad=bad)
 print(json.dumps(res))
 '''
+
+
+NEST_NATIVE = r'''"""parent condition must govern a conditioned last sub-group and the parent's post"""
+import importlib.util, os, sys
+root = os.path.abspath(sys.argv[1])
+import pysph, pysph.sph
+def load(name, rel):
+    spec = importlib.util.spec_from_file_location(name, os.path.join(root, rel))
+    mod = importlib.util.module_from_spec(spec); sys.modules[name] = mod
+    spec.loader.exec_module(mod); setattr(pysph.sph, name.rsplit('.', 1)[1], mod); return mod
+eqm = load('pysph.sph.equation', 'pysph/sph/equation.py')
+hm = load('pysph.sph.acceleration_eval_cython_helper', 'pysph/sph/acceleration_eval_cython_helper.py')
+am = load('pysph.sph.acceleration_eval', 'pysph/sph/acceleration_eval.py')
+import numpy as np
+from pysph.base.utils import get_particle_array
+from pysph.base.kernels import CubicSpline
+from pysph.base.nnps import LinkedListNNPS
+from pysph.sph.sph_compiler import SPHCompiler
+Equation, Group = eqm.Equation, eqm.Group
+class SetA(Equation):
+    def initialize(self, d_idx, d_a):
+        d_a[d_idx] = 1.0
+class SetB(Equation):
+    def initialize(self, d_idx, d_b):
+        d_b[d_idx] = 1.0
+log = []
+pa = get_particle_array(name='f', x=np.linspace(0, 1, 5), h=0.3, m=1.0)
+for p in 'ab': pa.add_property(p)
+groups = [Group(equations=[Group([SetA('f', None)]),
+                           Group([SetB('f', None)], condition=lambda t, dt: True)],
+                condition=lambda t, dt: t > 1.0, post=lambda: log.append('POST'))]
+ae = am.AccelerationEval([pa], groups, CubicSpline(dim=1))
+comp = SPHCompiler(ae, None); comp.compile()
+ae.set_nnps(LinkedListNNPS(dim=1, particles=[pa]))
+ae.compute(0.0, 0.1)     # parent condition false: nothing may run
+ran = ''.join(p for p in 'ab' if np.all(pa.get(p) == 1.0))
+print('ran', repr(ran), 'callbacks', log)
+sys.exit(1 if (ran or log) else 0)
+'''
+
+
+def nest_native():
+    """compile and run a real evaluator: parent condition false, conditioned
+    last sub-group and parent post must not run (about 15 s)"""
+    import subprocess
+    import tempfile
+    import os
+    from pyvc.repo import REPO_ROOT
+    with tempfile.NamedTemporaryFile('w', suffix='.py', delete=False) as f:
+        f.write(NEST_NATIVE)
+        path = f.name
+    try:
+        env = dict(os.environ)
+        env.pop('PYTHONPATH', None)
+        p_ = subprocess.run(['/venv/bin/python', path, REPO_ROOT],
+                            capture_output=True, text=True, timeout=900,
+                            cwd='/tmp', env=env)
+        return dict(exit=p_.returncode, output=(p_.stdout + p_.stderr)[-300:])
+    except Exception as e:
+        return dict(exit=None, output=str(e)[-200:])
+    finally:
+        os.unlink(path)
 
 
 def task_bounded(ctx, repo, m):
@@ -424,15 +653,22 @@ def task_bounded(ctx, repo, m):
         make_data='every equation list of length <= %d over 3 destinations '
                   'x {no source, [a], [a,b]}' % maxlen,
         emission='all 2^10 guard valuations x 1-2 destinations x 0-2 '
-                 'sources of the real do_group')
-    for k in ('converged', 'make_data', 'emission'):
+                 'sources of the real do_group',
+        nesting='mega-group loop of compute(): parent condition x iterate x '
+                '{no sub-groups, 2, 3 sub-groups} x every valuation of the '
+                'sub-group conditions x parent pre/post/update_nnps, followed '
+                'by a second plain group: every '
+                'block sits under exactly its own condition(s) and loop')
+    for k in ('converged', 'make_data', 'emission', 'nesting'):
         if res is None:
             ctx.bounded_check('c03.' + k, bounds[k], 0, False, err)
         else:
             r = res[k]
+            det = json_short(r['bad']) if r['bad'] else 'ok'
+            if k == 'nesting' and r['bad']:
+                det = dict(case=r['bad'], compiled_demo=nest_native())
             ctx.bounded_check('c03.' + k, bounds[k], r['cases'],
-                              r['bad'] is None,
-                              json_short(r['bad']) if r['bad'] else 'ok')
+                              r['bad'] is None, det)
     me = repo.module('pysph.sph.equation')
     ctx.function(me, me.methods('Group')['get_converged_condition'],
                  'Group.get_converged_condition')
